@@ -228,6 +228,9 @@ type ProgCase struct {
 	MidPathToggle []int `json:"mid_path_toggle,omitempty"`
 	// ZeroValue: use a zero-value Encoder instead of Reset (default metadata only).
 	ZeroValue bool `json:"zero_value,omitempty"`
+	// Reads: op indices after which the three read-only Destination methods
+	// (CSel, NSel, LOD) are called, inside paths too; reading changes nothing.
+	Reads []int `json:"reads,omitempty"`
 }
 
 func encodeProgram(c ProgCase, zeroValue bool) ([]byte, []bool, error) {
@@ -242,6 +245,10 @@ func encodeProgram(c ProgCase, zeroValue bool) ([]byte, []bool, error) {
 	toggle := map[int]bool{}
 	for _, k := range c.MidPathToggle {
 		toggle[k] = true
+	}
+	reads := map[int]bool{}
+	for _, k := range c.Reads {
+		reads[k] = true
 	}
 	inPath := false
 	for i, o := range c.Ops {
@@ -259,6 +266,11 @@ func encodeProgram(c ProgCase, zeroValue bool) ([]byte, []bool, error) {
 		}
 		if inPath && toggle[i] {
 			enc.HighResolutionCoordinates = !enc.HighResolutionCoordinates
+		}
+		if reads[i] {
+			enc.CSel()
+			enc.NSel()
+			enc.LOD()
 		}
 	}
 	b, err := enc.Bytes()
@@ -331,6 +343,22 @@ func genProgCase(t *rapid.T) (ProgCase, []string) {
 	}
 	if len(c.MidPathToggle) > 0 {
 		labels = append(labels, "resolution-flag-flipped-mid-path")
+	}
+	if rapid.IntRange(0, 2).Draw(t, "hasReads") == 0 && len(c.Ops) > 0 {
+		n := rapid.IntRange(1, 4).Draw(t, "nreads")
+		inside := false
+		for j := 0; j < n; j++ {
+			k := rapid.IntRange(0, len(c.Ops)-1).Draw(t, "readAt")
+			c.Reads = append(c.Reads, k)
+			if c.Ops[k].K.IsDrawing() && c.Ops[k].K != ops.ClosePathEndPath || c.Ops[k].K == ops.StartPath {
+				inside = true
+			}
+		}
+		if inside {
+			labels = append(labels, "selector-read-inside-path")
+		} else {
+			labels = append(labels, "selector-read-between-paths")
+		}
 	}
 	if len(labels) == 0 || (len(labels) == 1 && labels[0] == "resolution-flag-flipped-mid-path") {
 		if c.ViewBox == [4]ops.F32{-32, -32, 32, 32} && c.Palette == ops.DefaultPalette() && rapid.Bool().Draw(t, "zerovalue") {
@@ -415,16 +443,42 @@ func (e *keepRes) Reset(vb ivg.ViewBox, pal [64]color.RGBA) {
 	e.HighResolutionCoordinates = orig
 }
 
-func transcode(b []byte, hi bool) ([]byte, error, error) {
+func transcode(b []byte, hi bool) ([]byte, error, error) { return transcodeUsed(b, hi, 0) }
+
+// transcodeUsed hands Decode an Encoder that was used before: used = 1 after a
+// history that ended in an error, 2 after one abandoned inside a path with a
+// run pending, 3 after a complete graphic whose bytes were taken. Decode
+// starts with Reset, so none of it may show.
+func transcodeUsed(b []byte, hi bool, used int) ([]byte, error, error) {
 	var out []byte
 	var derr, berr error
+	dirty := func(e *encode.Encoder) {
+		switch used {
+		case 1:
+			e.AbsLineTo(1, 1) // drawing outside a path
+			e.SetCSel(3)
+		case 2:
+			e.SetNSel(5)
+			e.SetLOD(1, 2)
+			e.StartPath(0, 1, 2)
+			e.AbsLineTo(3, 4)
+			e.AbsLineTo(5, 6)
+		case 3:
+			e.Reset(ivg.ViewBox{MinX: 0, MinY: 0, MaxX: 8, MaxY: 9}, [64]color.RGBA{{1, 1, 1, 1}})
+			e.StartPath(0, 1, 2)
+			e.ClosePathEndPath()
+			e.Bytes()
+		}
+	}
 	if hi {
 		var e keepRes
+		dirty(&e.Encoder)
 		e.HighResolutionCoordinates = true
 		derr = decode.Decode(&e, b)
 		out, berr = e.Bytes()
 	} else {
 		var e encode.Encoder
+		dirty(&e)
 		derr = decode.Decode(&e, b)
 		out, berr = e.Bytes()
 	}
@@ -445,6 +499,15 @@ func checkTranscode(c StreamCase) error {
 		}
 		if berr != nil {
 			return harness.Violatef("c01/transcode-bytes-error", "%s: Encoder.Bytes failed on an accepted stream: %v", name, berr)
+		}
+		for used := 1; used <= 3; used++ {
+			tu, derr, berr := transcodeUsed(src, hi, used)
+			if derr != nil || berr != nil {
+				return harness.Violatef("c01/transcode-used-encoder", "%s: transcoding into an Encoder that was used before (kind %d) failed: %v %v", name, used, derr, berr)
+			}
+			if !bytes.Equal(tu, t1) {
+				return harness.Violatef("c01/transcode-used-encoder", "%s: transcoding into an Encoder that was used before (kind %d) gives other bytes than into a new one", name, used)
+			}
 		}
 		rec1 := &ops.Recorder{}
 		if err := decode.Decode(rec1, t1); err != nil {
